@@ -232,6 +232,15 @@ CHECKS['C08']['text'] += (" `this` is stamped with the class installed as contex
 CHECKS['C07']['text'] += (" Also: every scope opened is closed on every normal path; activations clear the return-value register; explicit casts between int/long/float/bit and "
                           "unary/postfix operators are evaluated abstractly against the documented results.")
 
+CHECKS['C08']['text'] += " Generic specialisation binds the template's own parameters positionally, replacing outer bindings of the same name (R08.8)."
+CHECKS['C10']['text'] += " The name→declaration table the base-first walk consults is filled for every class declaration (generic templates included)."
+CHECKS['C13']['text'] += " A cursor restore inside a loop uses a position saved in the same iteration; members written element-wise are per-run state and must be reset."
+CHECKS['C06']['text'] += " The evaluator's allocation function is evaluated abstractly over free-list states (incl. two free indices: an index handed out leaves the list)."
+CHECKS['C05']['text'] += " Angle texts produced by helper functions are evaluated from their syntax trees on sample angles (value preserved to six decimals)."
+CHECKS['C17']['text'] += " The CLI's shot/echo policy is found as a data-flow slice from its sinks (shot-loop bound, run-mode branch, setEcho arguments) — no variable names are used."
+for _p in ('C01', 'C02', 'C03', 'C04', 'C05', 'C17'):
+    CHECKS[_p]['note'] += " Helper functions of the analysed kernels are inlined by K-NORM (meaning-preserving: inline, nrvo, sroa, copy propagation) before the rules read them."
+
 NOT_YET = "check not yet built in this round (framework under construction; see DESIGN.md §4 for the planned static rules)"
 
 
